@@ -384,6 +384,12 @@ class ComposedNode(ConfigNode):
     def _propagate_implicit_values(self):
         if not hasattr(self, '_delete'): # happens when unpickling! children are being populated before attributes are set, but its ok since we assume pickled objects are ok anyway, so no need to fix things
             return
+        if notnone_or(self._safe, self._implicit_safe) is False:
+            # everything below an unsafe node is unsafe, however the node has become unsafe (e.g., by merging)
+            for child in self._children.values():
+                if child._implicit_safe is not False:
+                    child._implicit_safe = False
+                    child._propagate_implicit_values()
         if self._implicit_delete is None and self._implicit_allow_new is None and self._implicit_safe is None:
             return
         if self._delete is not None and self._allow_new is not None and self._safe is not None:
